@@ -45,6 +45,10 @@ def shards(tier, seed):
         for t in [(5, 0, 0), (4, 0, 1)]:
             sh += mk('d=5 (closed form, exact): scalar+blade patterns x grid, sums of commuting blades', spaces.cfg_pqr(*t), ('list', 'scalar+biv2'), 1, grid=3)
             sh += mk('d=5 (closed form, exact): scalar+blade patterns x grid, sums of commuting blades', spaces.cfg_pqr(*t), ('commuting',), 1, grid=0, ones=True)
+        for t in [(5, 0, 0), (2, 3, 0), (4, 0, 0)]:
+            sh += mk('d=4,5 (closed forms, exact): all subsets of 2..4 blades of a 7-blade menu mixing grades 0..4', spaces.cfg_pqr(*t), ('list', 'mixed'), 8, grid=0, ones=True)
+        for t in [(6, 0, 0), (4, 1, 1), (7, 0, 0)]:
+            sh += mk('d=6,7 (iterative scheme): scalar part not stored first', spaces.cfg_pqr(*t), ('list', 'scalar-not-first'), 3, grid=0, ones=True, tol=True)
         for t in [(4, 0, 0), (3, 1, 0), (6, 0, 0), (5, 1, 0)]:
             sh += mk('d=4,6: sums of pairwise commuting blades (maximal minimal polynomial)', spaces.cfg_pqr(*t), ('commuting',), 1, grid=0, ones=True, tol=(t[0] + t[1] >= 6))
         sh += mk('d=7: sum of four pairwise commuting blades (full length of the iterative scheme)', spaces.cfg_pqr(7, 0, 0), ('list', 'commuting1'), 1, grid=0, ones=True, tol=True)
@@ -64,6 +68,10 @@ def shards(tier, seed):
         for t in [(6, 0, 0), (5, 0, 1), (4, 1, 1), (7, 0, 0), (6, 0, 1)]:
             sh += mk('d=6,7 (iterative scheme): structured sparse patterns and scalar+bivector, tolerance 1e-9', spaces.cfg_pqr(*t), ('sparse2',), 6, grid=2, tol=True)
             sh += mk('d=6,7 (iterative scheme): structured sparse patterns and scalar+bivector, tolerance 1e-9', spaces.cfg_pqr(*t), ('list', 'scalar+biv2'), 1, grid=0, ones=True, tol=True)
+        for t in [(5, 0, 0), (2, 3, 0), (4, 0, 0), (4, 0, 1), (3, 1, 0), (1, 4, 0)]:
+            sh += mk('d=4,5 (closed forms, exact): all subsets of 2..4 blades of a 7-blade menu mixing grades 0..4', spaces.cfg_pqr(*t), ('list', 'mixed'), 8, grid=0, ones=True)
+        for t in [(6, 0, 0), (4, 1, 1), (7, 0, 0), (5, 0, 1), (3, 3, 0)]:
+            sh += mk('d=6,7 (iterative scheme): scalar part not stored first', spaces.cfg_pqr(*t), ('list', 'scalar-not-first'), 3, grid=0, ones=True, tol=True)
         for n in ('2DPGA', '3DPGA'):
             sh += mk('named custom bases: subsets <=2 blades x grid', spaces.NAMED[n], ('S', 2), 4, grid=3)
         for t in [(4, 0, 0), (3, 0, 1), (5, 0, 0), (4, 0, 1), (2, 3, 0), (6, 0, 0), (5, 0, 1), (3, 3, 0), (7, 0, 0), (6, 0, 1), (4, 3, 0)]:
@@ -95,6 +103,16 @@ def patterns(shard, alg):
     elif spec[0] == 'list' and spec[1] == 'commuting1':
         d = alg.d
         pats = [tuple([c[1]] + [c[1 + j] ^ c[2 + j] for j in range(1, d - 1, 2)])]
+    elif spec[0] == 'list' and spec[1] == 'mixed':
+        # every subset of <=4 blades of a menu mixing grades 0..4 (scalar, two vectors, two bivectors, a trivector, a 4-blade)
+        from itertools import combinations
+        menu = [0, c[1], c[2], c[1] ^ c[2], c[3] ^ c[4], c[1] ^ c[2] ^ c[3], c[1] ^ c[2] ^ c[3] ^ c[4]]
+        pats = [t for k in (2, 3, 4) for t in combinations(menu, k)]
+    elif spec[0] == 'list' and spec[1] == 'scalar-not-first':
+        # operands whose scalar part is not the first stored coefficient
+        d = alg.d
+        blades = [c[1]] + [c[1 + j] ^ c[2 + j] for j in range(1, d - 1, 2)]
+        pats = [(c[1] ^ c[2], 0), (c[1], 0), (c[1], c[2] ^ c[3], 0), (c[2], 0, c[1] ^ c[3]), tuple(reversed((0,) + tuple(blades[:3]))), tuple(blades[:2]) + (0,)]
     elif spec[0] == 'list' and spec[1] == 'scalar+biv2':
         biv = [k for k in c if g(k) == 2]
         pats = [(0, biv[0], biv[-1]), (0, biv[1]), tuple(k for k in c if g(k) == 1)]
